@@ -317,3 +317,14 @@ func ErrorKind(text string) string {
 	}
 	return "other"
 }
+
+// Unit is a program compiled through the public parser + compiler API
+// (no de-duplication, no Script wrapper).
+type Unit struct {
+	Bytecode   *tengo.Bytecode
+	Symbols    *tengo.SymbolTable
+	NumGlobals int
+	Globals    []tengo.Object  // fresh globals slice with the inputs installed
+	Index      map[string]int  // root-level global name -> slot
+	Modules    *tengo.ModuleMap
+}
